@@ -22,7 +22,7 @@ type tmplGen struct {
 }
 
 var textBits = []string{
-	"", " ", "\n", "hello ", "| ", "score: ", "<b>", "</b>", "&amp;", "{ ", " }", "} }", "{ {", "日本語 ", "é", "\t", "- ", "\"", "'", "`", "%s", "\\n", "{{\"{{\"}}",
+	"", " ", "\n", "hello ", "| ", "score: ", "<b>", "</b>", "&amp;", "{ ", " }", "} }", "{ {", "日本語 ", "é", "\t", "- ", "\"", "'", "`", "%s", "\\n", "{{\"{{\"}}", "\r\n", "line\r\n", "\xff", "\ufeff", "\x00", "tab\tsep", "  ", "\n\n",
 }
 
 func (g *tmplGen) field() string {
